@@ -355,4 +355,267 @@ theorem inv_run {G : Group → Prop} (hG : Good G) (h : List Ev) {st : St} {L : 
 theorem inv_init (G : Group → Prop) (total : Tab) : Inv G (St.init total) [] :=
   ⟨rfl, fun _ => rfl, by simp, by simp⟩
 
+/-! ### top-level statements -/
+
+/-- Hypotheses on a history: the allocator never hands out a negative amount, and every event about
+    a (node, type, pod) key carries the same allocation (a delete/update event carries the annotation
+    that was persisted at bind time, i.e. the recorded allocation). -/
+structure WellFormed (h : List Ev) : Prop where
+  nonneg : ∀ e ∈ h, e.grp.Nonneg
+  func : ∀ e ∈ h, ∀ e' ∈ h, e.grp.key = e'.grp.key → e.grp = e'.grp
+
+def InHist (h : List Ev) (g : Group) : Prop := ∃ e ∈ h, e.grp = g
+
+theorem good_of_wf {h : List Ev} (wf : WellFormed h) : Good (InHist h) := by
+  constructor
+  · intro g ⟨e, he, heg⟩; subst heg; exact wf.nonneg e he
+  · intro g g' ⟨e, he, heg⟩ ⟨e', he', heg'⟩ hk
+    subst heg heg'
+    exact wf.func e he e' he' hk
+
+/-- LEDGER INVARIANT.  After any well-formed history of add / delete / same-allocation-update events
+    starting from an empty cache, the cache state corresponds exactly to the surviving allocations:
+    `allocateSet` lists the survivors, `deviceUsed` is their sum at every slot. -/
+theorem live_invariant (total : Tab) (h : List Ev) (wf : WellFormed h) :
+    Inv (InHist h) (run (St.init total) h) (survivors h) :=
+  inv_run (good_of_wf wf) h (inv_init _ total) (fun e he => ⟨e, he, rfl⟩)
+
+theorem total_addGroup (st : St) (g : Group) : (addGroup st g).total = st.total := by
+  unfold addGroup; split <;> rfl
+
+theorem total_rmGroup (st : St) (g : Group) : (rmGroup st g).total = st.total := by
+  unfold rmGroup; split <;> rfl
+
+theorem total_run (st : St) (h : List Ev) : (run st h).total = st.total := by
+  induction h generalizing st with
+  | nil => rfl
+  | cons e r ih =>
+    simp only [run, List.foldl_cons] at ih ⊢
+    rw [ih]
+    cases e <;> simp [step, total_addGroup, total_rmGroup]
+
+theorem build_eq_run (total : Tab) (l : List Group) :
+    build total l = run (St.init total) (l.map Ev.add) := by
+  simp [build, run, List.foldl_map, step]
+
+theorem survivors_adds (l L : List Group) (hnd : ((L ++ l).map Group.key).Nodup) :
+    (l.map Ev.add).foldl liveStep L = L ++ l := by
+  induction l generalizing L with
+  | nil => simp
+  | cons g r ih =>
+    have hany : L.any (fun x => decide (x.key = g.key)) = false := by
+      apply Bool.eq_false_iff.mpr
+      intro h
+      simp only [List.any_eq_true, decide_eq_true_eq] at h
+      obtain ⟨y, hy, hyk⟩ := h
+      rw [List.map_append, List.nodup_append] at hnd
+      exact hnd.2.2 y.key (List.mem_map_of_mem hy) g.key (by simp) hyk
+    simp only [List.map_cons, List.foldl_cons, liveStep, hany, Bool.false_eq_true, if_false]
+    rw [ih (L ++ [g]) (by simpa using hnd)]
+    simp
+
+theorem key_inj_of_nodup (l : List Group) (hnd : (l.map Group.key).Nodup) :
+    ∀ a b, a ∈ l → b ∈ l → a.key = b.key → a = b := by
+  induction l with
+  | nil => intro a b ha; simp at ha
+  | cons x xs ih =>
+    simp only [List.map_cons, List.nodup_cons] at hnd
+    intro a b ha hb hk
+    rcases List.mem_cons.mp ha with ha1 | ha1 <;> rcases List.mem_cons.mp hb with hb1 | hb1
+    · rw [ha1, hb1]
+    · subst ha1; exact absurd (by rw [hk]; exact List.mem_map_of_mem hb1) hnd.1
+    · subst hb1; exact absurd (by rw [← hk]; exact List.mem_map_of_mem ha1) hnd.1
+    · exact ih hnd.2 a b ha1 hb1 hk
+
+/-- A fresh cache fed one add event per allocation (distinct (node,type,pod) keys, amounts >= 0)
+    corresponds exactly to that list of allocations. -/
+theorem build_invariant (total : Tab) (l : List Group)
+    (hnd : (l.map Group.key).Nodup) (hnn : ∀ g ∈ l, g.Nonneg) :
+    Inv (fun g => g ∈ l) (build total l) l := by
+  have hG : Good (fun g => g ∈ l) := ⟨hnn, key_inj_of_nodup l hnd⟩
+  have := inv_run hG (l.map Ev.add) (inv_init _ total)
+    (by intro e he; obtain ⟨g, hg, rfl⟩ := List.mem_map.mp he; exact hg)
+  rw [survivors_adds l [] (by simpa using hnd)] at this
+  rw [build_eq_run]
+  simpa using this
+
+/-- `used` of a rebuilt cache at every slot = what the allocations take there. -/
+theorem build_used (total : Tab) (l : List Group)
+    (hnd : (l.map Group.key).Nodup) (hnn : ∀ g ∈ l, g.Nonneg) (k : Slot) :
+    usedAt (build total l) k = taken l k :=
+  (build_invariant total l hnd hnn).used k
+
+theorem build_total (total : Tab) (l : List Group) : (build total l).total = total := by
+  rw [build_eq_run, total_run]; rfl
+
+/-- rendering depends only on the value observations -/
+theorem render_congr (un : Univ) (a b : St)
+    (hu : ∀ k, usedAt a k = usedAt b k) (hf : ∀ k, freeAt a k = freeAt b k)
+    (ha : ∀ k, asetAt a k = asetAt b k) : render un a = render un b := by
+  simp only [render, hu, hf, ha]
+
+theorem asetAt_congr (a b : St) (h : a.aset = b.aset) (k : GKey) : asetAt a k = asetAt b k := by
+  simp [asetAt, h]
+
+/-- (c) LIVE = REBUILT.  For every well-formed history from the empty cache, the live cache and a
+    fresh cache that is fed one add event per surviving allocation agree on `deviceUsed` and
+    `deviceFree` at every slot, hold the same `allocateSet`, and therefore print the same canonical
+    observation over any key universe. -/
+theorem live_eq_rebuilt (total : Tab) (h : List Ev) (wf : WellFormed h) :
+    let live := run (St.init total) h
+    let fresh := build total (survivors h)
+    (∀ k, usedAt live k = usedAt fresh k) ∧ (∀ k, freeAt live k = freeAt fresh k) ∧
+    live.aset = fresh.aset ∧ ∀ un, render un live = render un fresh := by
+  intro live fresh
+  have hI := live_invariant total h wf
+  have hnn : ∀ g ∈ survivors h, g.Nonneg := fun g hg => (good_of_wf wf).nonneg g (hI.mem g hg)
+  have hB := build_invariant total (survivors h) hI.nodup hnn
+  have hu : ∀ k, usedAt live k = usedAt fresh k := fun k => by
+    simp only [usedAt, live, fresh, hI.used k, hB.used k]
+  have hf : ∀ k, freeAt live k = freeAt fresh k := fun k => by
+    have hk : get (run (St.init total) h).used k = get (build total (survivors h)).used k := hu k
+    have ht : (St.init total).total = total := rfl
+    simp only [freeAt, live, fresh, total_run, build_total, ht, hk]
+  have ha : live.aset = fresh.aset := by rw [hI.aset, hB.aset]
+  exact ⟨hu, hf, ha, fun un => render_congr un live fresh hu hf (asetAt_congr live fresh ha)⟩
+
+/-- Nothing taken before the restart is considered free after it: in the rebuilt cache, `used` covers
+    what every surviving allocation took and `free` is at most `total - taken` (clamped at 0). -/
+theorem taken_not_free (total : Tab) (h : List Ev) (wf : WellFormed h) (k : Slot) :
+    let fresh := build total (survivors h)
+    (∀ g ∈ survivors h, gAmt g k ≤ usedAt fresh k) ∧
+    usedAt fresh k = taken (survivors h) k ∧
+    freeAt fresh k = max 0 (get total k - taken (survivors h) k) := by
+  intro fresh
+  have hI := live_invariant total h wf
+  have hnn : ∀ g ∈ survivors h, g.Nonneg := fun g hg => (good_of_wf wf).nonneg g (hI.mem g hg)
+  have hB := build_invariant total (survivors h) hI.nodup hnn
+  have hu : usedAt fresh k = taken (survivors h) k := hB.used k
+  refine ⟨?_, hu, ?_⟩
+  · intro g hg
+    have := taken_filter (survivors h) g k hI.nodup hg
+    have hr := taken_nonneg ((survivors h).filter (fun x => decide (x.key ≠ g.key))) k
+      (fun x hx => hnn x (List.mem_filter.mp hx).1)
+    omega
+  · simp only [usedAt] at hu
+    simp only [freeAt, fresh, build_total, hu]
+
+/-- (a) ORDER INDEPENDENCE.  Replaying add events for allocations with distinct keys into a fresh
+    cache gives the same `used` / `free` at every slot and the same allocateSet membership whatever
+    the delivery order. -/
+theorem build_perm (total : Tab) {l₁ l₂ : List Group} (hp : l₁.Perm l₂)
+    (hnd : (l₁.map Group.key).Nodup) (hnn : ∀ g ∈ l₁, g.Nonneg) :
+    (∀ k, usedAt (build total l₁) k = usedAt (build total l₂) k) ∧
+    (∀ k, freeAt (build total l₁) k = freeAt (build total l₂) k) ∧
+    (∀ key, recorded (build total l₁).aset key = recorded (build total l₂).aset key) := by
+  have hnd2 : (l₂.map Group.key).Nodup := (hp.map Group.key).nodup_iff.mp hnd
+  have hnn2 : ∀ g ∈ l₂, g.Nonneg := fun g hg => hnn g (hp.mem_iff.mpr hg)
+  have h1 := build_invariant total l₁ hnd hnn
+  have h2 := build_invariant total l₂ hnd2 hnn2
+  have hu : ∀ k, usedAt (build total l₁) k = usedAt (build total l₂) k := fun k => by
+    simp only [usedAt, h1.used k, h2.used k, taken]
+    exact sumOver_perm _ hp
+  refine ⟨hu, ?_, ?_⟩
+  · intro k
+    have := hu k
+    simp only [usedAt] at this
+    simp only [freeAt, build_total, this]
+  · intro key
+    rw [h1.aset, h2.aset, recorded_map, recorded_map]
+    exact hp.any_eq
+
+/-- (b1) DUPLICATE ADD.  Delivering the same add event twice is the same as delivering it once
+    (any state, any allocation): the isValid guard skips the second one. -/
+theorem dup_add_noop (st : St) (g : Group) : addGroup (addGroup st g) g = addGroup st g := by
+  by_cases hr : recorded st.aset g.key = true
+  · simp [addGroup, hr]
+  · have hr1 : recorded st.aset g.key = false := by simpa using hr
+    have : recorded (st.aset ++ [(g.key, recordItems g.items)]) g.key = true := by
+      simp [recorded]
+    conv => lhs; unfold addGroup
+    simp only [addGroup, hr1, Bool.false_eq_true, if_false, this, if_true]
+
+/-- (b2) SAME-ALLOCATION UPDATE.  In a state reached by a well-formed history in which the pod's
+    allocation `g` is recorded (it survives), an update event carrying `g` as old and new allocation
+    leaves `used`, `free` and the allocateSet membership unchanged. -/
+theorem same_update_noop (total : Tab) (h : List Ev) (g : Group)
+    (wf : WellFormed (h ++ [Ev.upd g])) (hg : g ∈ survivors h) :
+    let st := run (St.init total) h
+    (∀ k, usedAt (step st (.upd g)) k = usedAt st k) ∧
+    (∀ k, freeAt (step st (.upd g)) k = freeAt st k) ∧
+    (∀ key, recorded (step st (.upd g)).aset key = recorded st.aset key) := by
+  intro st
+  have wf0 : WellFormed h :=
+    ⟨fun e he => wf.nonneg e (by simp [he]),
+     fun e he e' he' => wf.func e (by simp [he]) e' (by simp [he'])⟩
+  have hI := live_invariant total h wf0
+  have hI' := live_invariant total (h ++ [Ev.upd g]) wf
+  have hrun : run (St.init total) (h ++ [Ev.upd g]) = step st (.upd g) := by
+    simp [run, st]
+  have hsurv : survivors (h ++ [Ev.upd g])
+      = (survivors h).filter (fun x => decide (x.key ≠ g.key)) ++ [g] := by
+    simp [survivors, liveStep]
+  rw [hrun, hsurv] at hI'
+  have hu : ∀ k, usedAt (step st (.upd g)) k = usedAt st k := fun k => by
+    have := taken_filter (survivors h) g k hI.nodup hg
+    simp only [usedAt, hI'.used k, st, hI.used k, this]
+    simp only [taken, sumOver_append, sumOver]
+    omega
+  refine ⟨hu, ?_, ?_⟩
+  · intro k
+    have := hu k
+    simp only [usedAt] at this
+    have ht : (step st (.upd g)).total = st.total := by
+      simp [step, total_addGroup, total_rmGroup]
+    simp only [freeAt, ht, this]
+  · intro key
+    rw [hI'.aset, show st.aset = (survivors h).map enc from hI.aset, recorded_map, recorded_map]
+    by_cases hk : g.key = key
+    · subst hk
+      have : (survivors h).any (fun x => decide (x.key = g.key)) = true := by
+        simp only [List.any_eq_true, decide_eq_true_eq]; exact ⟨g, hg, rfl⟩
+      simp [this]
+    · have hne : ¬ key = g.key := fun h => hk h.symm
+      simp only [List.any_append, List.any_cons, List.any_nil, hk, decide_false, Bool.or_false,
+        List.any_filter]
+      congr 1
+      funext x
+      by_cases hx : x.key = key
+      · simp [hx, hne]
+      · simp [hx]
+
+/-- REPLAY WITH DUPLICATES.  Any replay into a fresh cache that consists of add events and
+    same-allocation update events for allocations with pairwise distinct keys and non-negative amounts
+    (each in any multiplicity and order) yields the ledger of `build` over the replay's survivors;
+    in particular `used` = Σ survivors at every slot. -/
+theorem replay_with_dups (total : Tab) (l : List Group) (h : List Ev)
+    (hnd : (l.map Group.key).Nodup) (hnn : ∀ g ∈ l, g.Nonneg)
+    (hev : ∀ e ∈ h, e.grp ∈ l) (k : Slot) :
+    usedAt (run (St.init total) h) k = taken (survivors h) k ∧
+    ∀ g ∈ survivors h, g ∈ l := by
+  have hG : Good (fun g => g ∈ l) := ⟨hnn, key_inj_of_nodup l hnd⟩
+  have hI := inv_run hG h (inv_init _ total) hev
+  exact ⟨hI.used k, hI.mem⟩
+
+/-! ### the hypotheses are satisfiable on a non-trivial input -/
+
+def exG0 : Group := { node := 0, ty := 0, pod := 0, items := [(0, [(0, 50), (2, 50)]), (1, [(0, 100)])] }
+def exG1 : Group := { node := 0, ty := 0, pod := 1, items := [(0, [(0, 50), (2, 25)])] }
+def exG2 : Group := { node := 0, ty := 1, pod := 1, items := [(0, [(0, 0)])] }
+def exH : List Ev := [.add exG0, .add exG1, .add exG2, .upd exG1, .del exG0, .add exG1]
+
+example : WellFormed exH := by
+  constructor
+  · intro e he
+    simp only [exH, List.mem_cons, List.not_mem_nil, or_false] at he
+    rcases he with rfl | rfl | rfl | rfl | rfl | rfl <;> (intro it hit e he; revert e he it hit; decide)
+  · intro e he e' he'
+    simp only [exH, List.mem_cons, List.not_mem_nil, or_false] at he he'
+    rcases he with rfl | rfl | rfl | rfl | rfl | rfl <;>
+      rcases he' with rfl | rfl | rfl | rfl | rfl | rfl <;> decide
+
+example : survivors exH = [exG2, exG1] := by decide
+example : usedAt (run (St.init [((0, 0, 0, 0), 100)]) exH) (0, 0, 0, 0) = 50 := by decide
+example : freeAt (run (St.init [((0, 0, 0, 0), 100)]) exH) (0, 0, 0, 0) = 50 := by decide
+
 end KoordVerif.C19.Dev
